@@ -174,5 +174,6 @@ def run(ctx):
     monus_ok = OR(AND(le(r.start, I(1)), le(I(0), prod)), AND(lt(I(1), r.start), le(T.mk_sub(r.start, I(1)), prod)))
     crit = OR(AND(s.fin, eq(s.start, s.end)),
               OR(AND(r.inf, OR(lt(I(0), s.start), le(r.start, I(1)))), AND(r.fin, monus_ok)))
-    exact_ovf = all_(NOT(AND(s.fin, eq(s.start, s.end))), r.fin, lt(I(U32MAX), prod))
-    each('right_mul_is_exact', [r, s], lambda ip, o: [('value', T.mk_iff(o.value, crit))], exact_ovf, 'C15.R6')
+    # the criterion is a predicate: it has an answer for every pair of ranges (a product that exceeds u32 is certainly
+    # >= a - 1), so no panic is legitimate - in particular not the overflow of c * (b - a)
+    each('right_mul_is_exact', [r, s], lambda ip, o: [('value', T.mk_iff(o.value, crit))], None, 'C15.R6')
